@@ -56,6 +56,7 @@ var props = []Prop{
 			{Dir: "internal/pkg/input", Fn: "VF_C11_creation", MaxStrLen: [2]int{12, 16}},
 			{Dir: "internal/pkg/input", Fn: "VF_C11_joint", MaxStrLen: [2]int{12, 16}},
 			{Dir: "internal/pkg/input", Fn: "VF_C11_todo", MaxStrLen: [2]int{12, 16}},
+			{Dir: "internal/pkg/input", Fn: "VF_C11_dup_getters"},
 		},
 		Bounds:      []string{"one symbolic string per grammar position, <= 6 code points quick / <= 9-10 thorough (getter 8/14), full Unicode alphabet; YAML values of every kind yaml.v3 produces, depth 1", "joint reporting: 4 simultaneous defects, strings <= 4"},
 		Outside:     []string{"YAML node-kind errors raised inside yaml.v3 before validation", "violations detected only by later stages (pattern errors, must-getter without getter)", "strings beyond the bound"},
@@ -80,6 +81,7 @@ var props = []Prop{
 			{Dir: "internal/pkg/imports", Fn: "VF_C14_resolve", Perms: true, Tries: 64, Split: 6},
 			{Dir: "internal/pkg/imports", Fn: "VF_C14_names", Perms: true, Tries: 64, Split: 8},
 			{Dir: "internal/pkg/imports", Fn: "VF_C14_register"},
+			{Dir: "internal/pkg/compiler", Fn: "VF_C14_positions", Split: 3, MaxStrLen: [2]int{12, 12}},
 		},
 		Bounds:      []string{"alias table of 2 entries (aliases in the alias grammar, paths in the import grammar), one or two references in the import grammar, all strings <= 4 (quick) / 6 (thorough) code points; every iteration order of the table's maps"},
 		Outside:     []string{"pruning of unused imports by x/tools/imports", "tables of 3+ aliases", "strings beyond the bound"},
@@ -153,5 +155,53 @@ var props = []Prop{
 		Stubs:       []string{"collaborators of the compile steps are recording mocks"},
 		Assumptions: commonAssumptions,
 		Extra:       rangeInventory,
+	},
+	{
+		ID: "C13", Level: "model_checking",
+		Harnesses: []HSpec{
+			{Dir: "internal/pkg/compiler", Fn: "VF_C13_getter_table"},
+			{Dir: "internal/pkg/compiler", Fn: "VF_C13_meta_names"},
+			{Dir: "internal/pkg/compiler", Fn: "VF_C13_service_api"},
+			{Dir: "internal/pkg/input", Fn: "VF_C13_collisions", MaxStrLen: [2]int{30, 30}},
+		},
+		Bounds:      []string{"getter in {absent, empty, symbolic <= 8} x must_getter in {unset,true,false} x default_must_getter in {unset,true,false}; meta names set/unset with symbolic contents; two services; collision check over getters <= 12 (quick) / 24 (thorough) code points against the method set and embedded field of the pinned runtime container"},
+		Outside:     []string{"calling the generated getters; the conversion done by copier", "the getter template (template stage, see C01/C17)"},
+		Stubs:       []string{"reflect over container.New() -> method set from go/types"},
+		Assumptions: commonAssumptions,
+	},
+	{
+		ID: "C02", Level: "model_checking",
+		Harnesses: []HSpec{
+			{Dir: "internal/pkg/compiler", Fn: "VF_C02_arg_literal"},
+			{Dir: "internal/pkg/compiler", Fn: "VF_C02_arg_string", MaxStrLen: [2]int{14, 16}, Split: 4},
+			{Dir: "internal/pkg/compiler", Fn: "VF_C02_service", Split: 4},
+			{Dir: "internal/pkg/compiler", Fn: "VF_C02_creation"},
+		},
+		Bounds:      []string{"one argument of every YAML kind (depth 1) or a symbolic string <= 10 (quick) / 12 (thorough) code points through the six-strategy chain; one service with 3 arguments, 2 calls (symbolic method names and wither flags), 2 fields (symbolic names); creation method in {constructor, value, struct value, type} x pointer flag with a symbolic identifier"},
+		Outside:     []string{"that the runtime executes a definition as documented (constructor, fields, calls, decorators; what Get returns)", "the constructor template (template stage)", "the wiring as shipped in internal/gontainer (copied in the harness; executed for real in C10/C16)"},
+		Stubs:       []string{"exporter.MustExport -> Q / kind(decimal)"},
+		Assumptions: commonAssumptions,
+	},
+	{
+		ID: "C04", Level: "model_checking",
+		Harnesses: []HSpec{
+			{Dir: "internal/pkg/compiler", Fn: "VF_C04_tags_decorators", Split: 3},
+			{Dir: "internal/pkg/input", Fn: "VF_C04_tag_yaml"},
+		},
+		Bounds:      []string{"2 tags with symbolic names and arbitrary int priorities; 2 decorators with symbolic tags/functions and 1-2 arguments; Tag.UnmarshalYAML on every YAML shape (depth 2)"},
+		Outside:     []string{"ordering by priority then name, decoration after own calls, payload contents, replacement of the service: behaviour of the runtime library", "the constructor template (template stage)"},
+		Stubs:       []string{"exporter"},
+		Assumptions: commonAssumptions,
+	},
+	{
+		ID: "C15", Level: "model_checking",
+		Harnesses: []HSpec{
+			{Dir: "internal/pkg/compiler", Fn: "VF_C15_todo", Split: 3, MaxStrLen: [2]int{16, 16}},
+			{Dir: "internal/pkg/compiler", Fn: "VF_C15_params_lazy", MaxStrLen: [2]int{10, 12}},
+		},
+		Bounds:      []string{"a todo service with arbitrary (also invalid) attributes, symbolic <= 3; a %todo(args)% parameter with symbolic arguments <= 3 and a dependant; one parameter of every YAML scalar kind or a symbolic string <= 5 (quick) / 7 (thorough)"},
+		Outside:     []string{"OverrideParam / OverrideService histories and when providers run: behaviour of the runtime library", "_paramTodo in the generated file (template stage)"},
+		Stubs:       []string{"exporter"},
+		Assumptions: commonAssumptions,
 	},
 }
